@@ -1,7 +1,7 @@
 """C07 - totals, profiles and the folder tree always agree with the measurements.
 
-Domain : generated codebases (vf/gen/codebase.py): 0..25 files, relative paths to depth 6 over a small pool of segment
-         names (shared prefixes), 1..7 languages, 0..6 measurements per file with boundary-biased lengths, any insertion
+Domain : generated codebases (vf/gen/codebase.py): 0..25 files, relative paths to depth 6 over a pool of segment
+         names (shared prefixes, names sorting before '.' and after letters; a quarter of the runs use arbitrary Unicode), 1..7 languages, 0..6 measurements per file with boundary-biased lengths, any insertion
          order; built with add_file + one aggregate(), as Scanner and ReportReader do.
 Oracle : independent recomputation from the plain data - per-language totals, per-file profile partitioning loc,
          every folder's profile = sum over files beneath it, root = whole codebase, grand totals = sums over languages,
@@ -173,14 +173,14 @@ def _labels(cb):
     return labels, (depth >= 3 and len(langs) >= 2 and big)
 
 
-def gen(col, seed, n):
+def gen(col, seed, n, wild=False):
     def body(cb):
         labels, nt = _labels(cb)
-        col.eval(cb, nontrivial=nt, labels=labels)
+        col.eval(cb, nontrivial=nt, labels=labels + ["wild-names" if wild else "plain-names"])
 
-    run_given(body, G.codebases(), seed, n)
+    run_given(body, G.codebases(wild=wild), seed, n)
 
 
 def plan(tier, seed):
     total = 4800 if tier == "quick" else 80000
-    return [("gen", {"seed": shard_seed(seed, ID, i), "n": total // 16}) for i in range(16)]
+    return [("gen", {"seed": shard_seed(seed, ID, i), "n": total // 16, "wild": i % 4 == 3}) for i in range(16)]
